@@ -212,11 +212,25 @@ def detail_bytes(text, ctype):
 
 
 def make_exc_info(token):
+    """An exc_info triple whose exception instance has since been raised AGAIN elsewhere (re-raised by a retry loop,
+    a saved exception raised later): its __traceback__ has grown by the frame below, the triple's traceback has not.
+    What is reported is the triple that was handed in."""
     import sys
     try:
         raise ValueError(token)
     except ValueError:
-        return sys.exc_info()
+        info = sys.exc_info()
+
+    def tvm_later_frame(exc):
+        raise exc
+    try:
+        tvm_later_frame(info[1])
+    except ValueError:
+        pass
+    return info
+
+
+LATER_FRAME = b"tvm_later_frame"
 
 
 def drive(result, history, on_step=None, details_fn=None):
